@@ -79,7 +79,7 @@ package misc
 //@   loop 1 invariant forall q :: q < 0 || q >= bytes ==> out[q] == old(out[q])
 
 //@ func AddrToByte
-//@   names out:*[32]uint8 addr:*[8]uint32 |  | i:int@1i i:int@2i | a180769d 38ccd1f9
+//@   names out:*[32]uint8 addr:*[8]uint32 |  | i:int@1i i:int@2i | a180769d:ToByteLittleEndian 38ccd1f9:ToByteBigEndian
 //@   ensures forall d :: 0 <= d && d < 32 ==> out[d] == spec.byte32(addr[d / 4], 3 - d % 4)
 //@   assigns *out
 //@   loop 1 invariant 0 <= i && i <= 8
@@ -93,7 +93,7 @@ package misc
 //@ pred allInList(s, n) := forall m_ :: 0 <= m_ && m_ < n ==> spec.inlist(spec.tok(strof(s), m_))
 
 //@ func binToMnemonic
-//@   names input:[]uint8 |  | buf:*bytes.Buffer separator:string nibble:int@1i p:int b1:uint32 b2:uint32 idx:uint32 _:int err:error | 4903e36b
+//@   names input:[]uint8 |  | buf:*bytes.Buffer separator:string nibble:int@1i p:int b1:uint32 b2:uint32 idx:uint32 _:int err:error | 4903e36b:Fprint,Sprintf
 //@   props C10 C09
 //@   panics "byte count needs to be a multiple of 3" when len(input) % 3 != 0
 //@   ensures[C10,C09] strof(result) == spec.joined(spec.mnemWords(input), 2 * len(input) / 3)
